@@ -283,12 +283,6 @@ theorem stage_sound (minor : Nat) (hm : minor = 0 ∨ minor = 1) {x y z : Q} {av
   · simp at h1
 
 
-set_option maxRecDepth 100000 in
-theorem sweep_v31 : sweep3 (stage1 1) (stage2 1) = true := by decide +kernel
-
-set_option maxRecDepth 100000 in
-theorem sweep_v30 : sweep3 (stage1 0) (stage2 0) = true := by decide +kernel
-
 /-! ### `fromCVSS3` on printed base vectors -/
 
 theorem print3_mk3 (minor av ac pr ui s c i a : Nat)
